@@ -80,6 +80,12 @@ for _pid, _p in PROPS.items():
     _p["table_modules"] = _mods
     _p["unverified_tables"] = _unv
 
+# crate-internal helper routines exercised directly (hk_* observations, judged against the translated source and the helper models)
+for _pid, _fams in {"C01": ["HKARITH", "HKROUND", "HKPACK"], "C02": ["HKROUND", "HKARITH"], "C03": ["HKARITH"], "C04": ["HKPACK"], "C09": ["HKPACK"],
+                    "C10": ["HKPACK"], "C11": ["HKPACK"], "C13": ["HKPACK"], "C15": ["HKARITH", "HKROUND", "HKPACK"]}.items():
+    PROPS[_pid]["helper_families"] = _fams
+    PROPS[_pid]["static_modules"] = PROPS[_pid]["static_modules"] + ["DecProofs.Static.Translated"]
+
 # secondary build configuration of C02 (thorough tier): the tininess-after-rounding cargo feature
 PROPS["C02"]["feature_configs"] = [{"feature": "tiny_after", "judge_tiny_after": True}]
 
